@@ -50,19 +50,26 @@ MVal(i, j) == PV((i - 1) * 5 + j)
 (***************************************************************************)
 Vals(len) == [k \in 1..len |-> PV(k)]
 DenseD(mm, nn) == [i \in 1..mm |-> [j \in 1..nn |-> MVal(i, j)]]
-Mk(kind, mm, nn, rep) == [kind |-> kind, m |-> mm, n |-> nn, bh |-> BH, bw |-> BW, rep |-> rep]
+Mk(kind, mm, nn, rep) == [kind |-> kind, m |-> mm, n |-> nn, bh |-> BH, bw |-> BW, rep |-> rep, alloc |-> FALSE]
+\* the entry-free container with allocated array slots of length 0 (see PersistFmt!Arrays)
+MkAlloc(kind, mm, nn, rep) == [kind |-> kind, m |-> mm, n |-> nn, bh |-> BH, bw |-> BW, rep |-> rep, alloc |-> TRUE]
 Containers ==
   CASE Kind = "dv"  -> {Mk("dv", mm, 1, [va |-> Vals(mm)]) : mm \in 0..MaxM}
     [] Kind = "dvb" -> {Mk("dvb", mm, 1, [va |-> Vals(mm * BH)]) : mm \in 0..MaxM}
     [] Kind = "sv"  -> UNION {{Mk("sv", mm, 1, [idx |-> SetToSortSeq(I, <), va |-> Vals(Cardinality(I))]) : I \in SUBSET (0..(mm - 1))} : mm \in 0..MaxM}
+                       \cup {MkAlloc("sv", mm, 1, [idx |-> <<>>, va |-> <<>>]) : mm \in 1..MaxM}
     [] Kind = "svb" -> UNION {{Mk("svb", mm, 1, [idx |-> SetToSortSeq(I, <), va |-> Vals(Cardinality(I) * BH)]) : I \in SUBSET (0..(mm - 1))} : mm \in 0..MaxM}
+                       \cup {MkAlloc("svb", mm, 1, [idx |-> <<>>, va |-> <<>>]) : mm \in 1..MaxM}
     [] Kind = "dm"  -> {Mk("dm", mm, nn, DenseOf(mm, nn, DenseD(mm, nn))) : mm \in 1..MaxM, nn \in 1..MaxN}     \* DenseMatrix requires non-zero dimensions
     [] Kind = "csr" -> UNION {{Mk("csr", mm, nn, CSROf(mm, nn, DenseD(mm, nn), P)) : P \in SUBSET ((1..mm) \X (1..nn))} : mm \in 0..MaxM, nn \in 0..MaxN}
+                       \cup {MkAlloc("csr", mm, nn, CSROf(mm, nn, DenseD(mm, nn), {})) : mm \in 1..MaxM, nn \in 1..MaxN}
     [] Kind = "bcsr" -> UNION {{Mk("bcsr", mm, nn, BCSROf(mm, nn, BH, BW, DenseD(mm * BH, nn * BW), P)) : P \in SUBSET ((1..mm) \X (1..nn))} : mm \in 0..MaxM, nn \in 0..MaxN}
+                        \cup {MkAlloc("bcsr", mm, nn, BCSROf(mm, nn, BH, BW, DenseD(mm * BH, nn * BW), {})) : mm \in 1..MaxM, nn \in 1..MaxN}
     [] Kind = "cscr" -> UNION {UNION {{Mk("cscr", mm, nn, CSCROf(mm, nn, DenseD(mm, nn), P, R)) :
                                  R \in {R \in SUBSET (1..mm) : {e[1] : e \in P} \subseteq R /\ (P = {} => R = {})}} :
                                  P \in SUBSET ((1..mm) \X (1..nn))} : mm \in 0..MaxM, nn \in 0..MaxN}
-    [] Kind = "banded" -> UNION {{Mk("banded", mm, nn, BandedOf(mm, nn, DenseD(mm, nn), O, 0)) : O \in (SUBSET (0..(mm + nn - 2))) \ {{}}} : mm \in 1..MaxM, nn \in 1..MaxN}
+                        \cup {MkAlloc("cscr", mm, nn, CSCROf(mm, nn, DenseD(mm, nn), {}, {})) : mm \in 1..MaxM, nn \in 1..MaxN}
+    [] Kind = "banded" -> UNION {{Mk("banded", mm, nn, BandedOf(mm, nn, DenseD(mm, nn), O, 0)) : O \in SUBSET (0..(mm + nn - 2))} : mm \in 1..MaxM, nn \in 1..MaxN}   \* (no offsets: arrays of length 0)
 TextModes(kind) == CASE kind \in {"dv", "dvb"} -> {"exp", "mtx"} [] kind \in {"sv", "dm", "csr", "bcsr"} -> {"mtx"} [] OTHER -> {}
 \* write_out/read_from binary modes always (de)serialise as <double, uint64>; serialize<DT2,IT2>()/deserialize
 \* ("ser") take the serialisation types as template parameters
@@ -93,6 +100,6 @@ LayoutOK == ph # "init" /\ IsBin(call.mode) => BinLayoutOK(file)
 
 Emit == ph = "read" =>
   PrintT(ToJson([part |-> "io", kind |-> c.kind, m |-> c.m, n |-> c.n, bh |-> c.bh, bw |-> c.bw, den |-> Den, rep |-> c.rep, arrays |-> Arrays(c),
-                 mode |-> call.mode, cdt |-> call.cdt, cit |-> call.cit, sdt |-> call.sdt, sit |-> call.sit,
+                 alloc |-> c.alloc, mode |-> call.mode, cdt |-> call.cdt, cit |-> call.cit, sdt |-> call.sdt, sit |-> call.sit,
                  file |-> file, back |-> back]))
 =============================================================================
